@@ -45,7 +45,8 @@ def cases_for(rng, tier):
         for kw in cfgs:
             for kind in ([rng.choice(kinds)] if tier == 'quick' else kinds):
                 case = {'name': name, 'pipeline': [leaf(name, kw)], 'shape': [12, 10, 8], 'seed': rng.randint(0, 10 ** 6),
-                        'data_seed': rng.randint(0, 10 ** 5), 'image': kind, 'extra': {}}
+                        'data_seed': rng.randint(0, 10 ** 5), 'image': kind, 'extra': {},
+                        'channels': 2 if 'apply_to_channel_idx' in kw else (3 if rng.random() < 0.15 and name != 'NPSNoise' else None)}
                 if 'cropping_bbox' in spec.get('needs', []):
                     case['extra'][kw.get('cropping_box_key', 'cropping_bbox')] = [2, 2, 1, 8, 9, 6]
                 cases.append(case)
